@@ -328,4 +328,98 @@ def recvN (md : Mode) (crs : Nat → Crypto) (n : Nat) (s : Sched) (iDirect : Na
         | .incomplete => recvN md crs n s iDirect rounds nd1 ws'
         | r => (nd1, ws', ⟨i, r⟩)
 
+/-! ### integer arrays: `Send(vector)` / `Receive(vector)` -/
+
+/-- `aio_array_delimiter` -/
+def arrDelim : Int := 4242424242
+
+/-- only the select class in chunked mode (encrypted or not) marks the end of an array on the wire -/
+def Mode.delim (md : Mode) : Bool := md.chunked && (md.cls == .select)
+
+/-- the single values an array is sent as -/
+def arrItems (md : Mode) (a : List Int) : List Int := if md.delim then a ++ [arrDelim] else a
+
+/-- `Send(vector)` on a link that takes everything: the elements one after the other (then the delimiter);
+    the first refused item ends the call with false -- what was written before stays written, and (repair
+    a324ab4) if anything of the array was written, i.e. the failing item is not the first, the link is closed.
+    `idx`: position of the next item; `ests`: the `mpz_sizeinbase` answers, one per item. -/
+def sendArrGo (md : Mode) (cr : Crypto) (iv : Bytes) : Nat → Tx2 → List Int → List Nat → Bytes → Bool × Tx2 × Bytes
+  | _, tx, [], _, acc => (true, tx, acc)
+  | idx, tx, m :: ms, ests, acc =>
+    let est := ests.headD 0
+    if md.cls == .select then
+      match send2 md cr iv tx m est with
+      | none => (false, { tx with isOpen := tx.isOpen && idx == 0 }, acc)
+      | some (tx1, w) => sendArrGo md cr iv (idx + 1) tx1 ms ests.tail (acc ++ w)
+    else
+      let r := nbSend md cr iv tx m est { out := [], taken := 0, cap := 1000000000 } ⟨1, 1, 1⟩ []
+      if r.1 then sendArrGo md cr iv (idx + 1) r.2.1 ms ests.tail (acc ++ r.2.2.1.out)
+      else (false, { r.2.1 with isOpen := r.2.1.isOpen && idx == 0 }, acc ++ r.2.2.1.out)
+
+def sendArr (md : Mode) (cr : Crypto) (iv : Bytes) (tx : Tx2) (a : List Int) (ests : List Nat) : Bool × Tx2 × Bytes :=
+  sendArrGo md cr iv 0 tx (arrItems md a) ests []
+
+/-- an `n`-party object with the per-sender queues `buf_mpz` of the array interface -/
+structure ANode where
+  node : Node
+  queues : List (List Int)
+  bcur : Nat := 0            -- `aio_schedule_buffer`
+  deriving Repr
+
+/-- index of the last delimiter in `m` -/
+def lastDelim (m : List Int) : Option Nat :=
+  let r := m.reverse.idxOf arrDelim
+  if r < m.length then some (m.length - 1 - r) else none
+
+/-- the test at the top of an iteration of `Receive(vector)` on the queue of the sender the scheduler named:
+    new queue, new contents of `m`, and whether the call returns true.
+    With the delimiter: `k + 1` values are needed; if the value after the `k`-th is not the delimiter the
+    array is "out of order": what follows the last delimiter inside the `k` values is put back, the rest
+    (all `k` values if there is no delimiter among them) is discarded, and the call goes on. -/
+def arrCheck (md : Mode) (q m : List Int) : List Int × List Int × Bool :=
+  let k := m.length
+  if md.delim then
+    if q.length ≥ k + 1 then
+      let m' := q.take k
+      let q1 := q.drop k
+      if q1.head? = some arrDelim then (q1.tail, m', true)
+      else
+        match lastDelim m' with
+        | some d => (m'.drop (d + 1) ++ q1, m', false)
+        | none => (q1, m', false)
+    else (q, m, false)
+  else if q.length ≥ k then (q.drop k, q.take k, true)
+  else (q, m, false)
+
+structure AOut where
+  iOut : Nat
+  ok : Bool
+  m : List Int        -- contents of the caller's vector after the call
+  deriving Repr
+
+/-- `Receive(m, i_out, scheduler, 0)` for a vector `m`: one iteration of its loop -- the scheduler names a
+    sender (round robin on its own counter `aio_schedule_buffer`); if that sender's queue holds enough, the
+    array is taken from it; otherwise ONE single-value `Receive(tmp, i, scheduler, 0)` is made and its value
+    appended to the queue of the sender it came from, and the call returns false (`i_out = n`: time-out;
+    `i_out = i < n`: the single-value call failed or, with the direct scheduler, had nothing). -/
+def recvArr (md : Mode) (crs : Nat → Crypto) (n : Nat) (s : Sched) (iDirect : Nat) (an : ANode)
+    (ws : List Nat) (m : List Int) : ANode × List Nat × AOut :=
+  match pick n s an.bcur ws iDirect with
+  | none => (an, ws, ⟨n, false, m⟩)
+  | some (i, b', ws1) =>
+    match an.queues[i]? with
+    | none => ({ an with bcur := b' }, ws1, ⟨i, false, m⟩)
+    | some q =>
+      let c := arrCheck md q m
+      let an1 : ANode := { an with bcur := b', queues := an.queues.set i c.1 }
+      if c.2.2 then (an1, ws1, ⟨i, true, c.2.1⟩)
+      else
+        let r := recvN md crs n s iDirect n an1.node ws1
+        match r.2.2.res with
+        | .delivered v =>
+          ({ an1 with node := r.1,
+                      queues := an1.queues.set r.2.2.iOut (an1.queues.getD r.2.2.iOut [] ++ [v]) },
+            r.2.1, ⟨n, false, c.2.1⟩)
+        | _ => ({ an1 with node := r.1 }, r.2.1, ⟨if r.2.2.iOut < n then r.2.2.iOut else n, false, c.2.1⟩)
+
 end Tmcg.Aio2
